@@ -130,7 +130,7 @@ impl Prop for C08 {
     type Case = HybCase;
     fn id(&self) -> &'static str { "C08" }
     fn level(&self) -> &'static str { "fault_enumeration" }
-    fn budget(&self, tier: Tier) -> Budget { match tier { Tier::Quick => Budget { runs: 12_000, wall_s: 60, recheck: 30 }, Tier::Thorough => Budget { runs: 60_000, wall_s: 1500, recheck: 100 } } }
+    fn budget(&self, tier: Tier) -> Budget { match tier { Tier::Quick => Budget { runs: 12_000, wall_s: 60, recheck: 30 }, Tier::Thorough => Budget { runs: 400_000, wall_s: 1200, recheck: 100 } } }
     fn hash_seed(&self, c: &HybCase) -> u64 { c.hash_seed }
     fn gen(&self, seed: u64, _index: u64, tier: Tier) -> HybCase {
         let mut r = Rng::sub(seed, "workload"); let mut cfg = Rng::sub(seed, "swarm");
